@@ -84,6 +84,7 @@ def adFinishes (kind : AdKind) (call result : String) : Bool :=
 inductive CycPhase where
   | atRx            -- about to drain the receiver at the head of `todo`
   | atEmpty         -- that receiver's pop found it empty; abandoned check comes next
+  | atRx2           -- second pass: about to drain the retained receiver at the head of `todo2` again
   | atReport        -- drain finished; processing + report come next
 deriving Repr, DecidableEq, Inhabited
 
@@ -92,6 +93,8 @@ structure CycState where
   todo : List (Nat × Ring Cmd)      -- receivers not yet visited (head = current)
   kept : List (Nat × Ring Cmd)      -- receivers visited and retained
   buf : List Cmd                    -- commands popped so far, in pop order
+  todo2 : List Nat := []            -- second pass: retained receivers not yet revisited
+  buf2 : List Cmd := []             -- commands popped in the second pass
 deriving Repr, Inhabited
 
 structure Sys where
@@ -105,6 +108,7 @@ structure Sys where
   lspans : List (String × LocalSpansVal)
   cyc : Option CycState
   adapters : List (String × Adapter) := []
+  deferred : List Nat := []         -- collect ids whose commit was first seen in a second drain pass
 deriving Repr, Inhabited
 
 def Sys.init : Sys :=
@@ -346,10 +350,19 @@ def Sys.statsOf (s : Sys) : Stats :=
       (e.2.danglings.map (·.2.length)).foldl (· + ·) 0)),
     receivers := s.rxs.length }
 
-/-- processing + report once the drain is complete -/
-def Sys.finishCycle (s : Sys) (kept : List (Nat × Ring Cmd)) (buf : List Cmd) : Sys × Option (List Record) :=
-  let (coll, rep) := cycleProcess id s.coll buf
-  ({ s with coll := coll, rxs := kept, cyc := none }, rep)
+def Cmd.isCommit : Cmd → Bool
+  | .commit _ => true
+  | _ => false
+
+/-- processing + report once the drain is complete.  The batch is: the commits deferred by the
+    previous cycle, everything popped in the first pass, and everything popped in the second
+    pass **except commits**, which wait for the next cycle (what precedes them on other threads
+    may not have been drained yet).  Without a reporter everything is discarded. -/
+def Sys.finishCycle (s : Sys) (kept : List (Nat × Ring Cmd)) (buf buf2 : List Cmd) : Sys × Option (List Record) :=
+  let batch := s.deferred.map Cmd.commit ++ buf ++ buf2.filter (fun c => !c.isCommit)
+  let (coll, rep) := cycleProcess id s.coll batch
+  ({ s with coll := coll, rxs := kept, cyc := none,
+            deferred := if s.coll.hasReporter then commitsOf buf2 else [] }, rep)
 
 /-- the whole drain at once (no operation falls inside it) -/
 def drainAll : List (Nat × Ring Cmd) → List (Nat × Ring Cmd) × List Cmd
@@ -359,9 +372,17 @@ def drainAll : List (Nat × Ring Cmd) → List (Nat × Ring Cmd) × List Cmd
     let (kept, buf) := drainAll rest
     (if keep then (t, r') :: kept else kept, cmds ++ buf)
 
+/-- a whole cycle with nothing in between: the second pass finds the rings empty -/
 def Sys.cycle (s : Sys) : Sys × Option (List Record) :=
   let (kept, buf) := drainAll s.rxs
-  s.finishCycle kept buf
+  s.finishCycle kept buf []
+
+/-- the first pass is over: the retained receivers are drained once more, or — if none is
+    left — processing and report come next -/
+def CycState.afterFirst (cs : CycState) : CycState × String :=
+  match cs.kept with
+  | [] => ({ cs with phase := .atReport }, "report")
+  | _ => ({ cs with phase := .atRx2, todo2 := cs.kept.map (·.1) }, "rx2")
 
 /-- one step of the collector, from one hook point to the next -/
 def Sys.cycStep (s : Sys) : Sys × Obs :=
@@ -370,9 +391,21 @@ def Sys.cycStep (s : Sys) : Sys × Obs :=
   | some cs =>
     match cs.phase, cs.todo with
     | .atReport, _ =>
-      let (s, rep) := s.finishCycle cs.kept cs.buf
+      let (s, rep) := s.finishCycle cs.kept cs.buf cs.buf2
       (s, .report rep)
-    | _, [] => ({ s with cyc := some { cs with phase := .atReport } }, .phase "report")
+    | .atRx2, _ =>
+      -- second pass: everything in this retained receiver's ring is popped (no removal here)
+      match cs.todo2 with
+      | [] => ({ s with cyc := some { cs with phase := .atReport } }, .phase "report")
+      | t :: rest =>
+        let r := (natGet cs.kept t).getD (Ring.new Consts.ringCap)
+        let cs' : CycState := { cs with kept := natSet cs.kept t { r with q := [] }, buf2 := cs.buf2 ++ r.q, todo2 := rest }
+        match rest with
+        | [] => ({ s with cyc := some { cs' with phase := .atReport } }, .phase "report")
+        | _ => ({ s with cyc := some cs' }, .phase "rx2")
+    | _, [] =>
+      let (cs', ph) := cs.afterFirst
+      ({ s with cyc := some cs' }, .phase ph)
     | .atRx, (t, r) :: rest =>
       -- pop until the ring is empty; stop at the `ReceiverEmpty` hook
       let r' : Ring Cmd := { r with q := [] }
@@ -383,7 +416,9 @@ def Sys.cycStep (s : Sys) : Sys × Obs :=
         -- `Ok(None)`: keep the receiver, go on to the next one
         let cs := { cs with phase := .atRx, todo := rest, kept := cs.kept ++ [(t, r)] }
         match rest with
-        | [] => ({ s with cyc := some { cs with phase := .atReport } }, .phase "report")
+        | [] =>
+          let (cs', ph) := cs.afterFirst
+          ({ s with cyc := some cs' }, .phase ph)
         | _ => ({ s with cyc := some cs }, .phase "rx")
       else
         match r.q with
@@ -391,7 +426,9 @@ def Sys.cycStep (s : Sys) : Sys × Obs :=
           -- abandoned and still empty after the re-check: remove the receiver
           let cs := { cs with phase := .atRx, todo := rest }
           match rest with
-          | [] => ({ s with cyc := some { cs with phase := .atReport } }, .phase "report")
+          | [] =>
+            let (cs', ph) := cs.afterFirst
+            ({ s with cyc := some cs' }, .phase ph)
           | _ => ({ s with cyc := some cs }, .phase "rx")
         | _ =>
           -- abandoned, but the re-check finds commands: they are popped like any others
@@ -404,8 +441,8 @@ def Sys.cycBegin (s : Sys) : Sys × Obs :=
   | some _ => (s, .badOp "cycle already in progress")
   | none =>
     match s.rxs with
-    | [] => ({ s with cyc := some ⟨.atReport, [], [], []⟩ }, .phase "report")
-    | _ => ({ s with cyc := some ⟨.atRx, s.rxs, [], []⟩ }, .phase "rx")
+    | [] => ({ s with cyc := some { phase := .atReport, todo := [], kept := [], buf := [] } }, .phase "report")
+    | _ => ({ s with cyc := some { phase := .atRx, todo := s.rxs, kept := [], buf := [] } }, .phase "rx")
 
 /-! ### one operation -/
 
